@@ -12,6 +12,7 @@ mod ckey;
 mod crash;
 mod c12;
 mod c13;
+mod c14;
 mod c16;
 mod c18;
 mod c16s;
@@ -91,6 +92,8 @@ fn main() {
         ("store", "exec") => store::exec(&args),
         ("ckey", "exec") => ckey::exec(&args),
         ("c08", "exec") => c08::exec(&args),
+        ("c14", "gen") => c14::gen(&args),
+        ("c14", "exec") => c14::exec(&args),
         ("c13", "gen") => c13::gen(&args),
         ("c13", "exec") => c13::exec(&args),
         ("c16", "gen") => c16::gen(&args),
